@@ -670,6 +670,20 @@ def translate(ctx):
             ok = False
             continue
         mod.write_if_changed(out, text)
+        if modname == "t_pca":
+            import contextlib
+            import io
+            buf = io.StringIO()
+            try:
+                with contextlib.redirect_stdout(buf):
+                    st_ok = mod.self_test(ctx.repo)
+            except Exception as ex:
+                st_ok = False
+                buf.write("self-test raised %r" % (ex,))
+            if not st_ok:
+                bad = [l for l in buf.getvalue().splitlines() if "NOT DETECTED" in l or "not present" in l or
+                       "raised" in l or "CHANGED" in l]
+                ctx.note("T-pca self-test incomplete (source drifted from the seeded mutation patterns?): %s" % bad[:3])
     return ok
 
 
